@@ -136,6 +136,17 @@ func genIds(tier string, rng *RNG, emit func(Case)) {
 		}
 		emitDoc(emit, src, hist)
 	}
+	// histories containing a very large document (hundreds of headings, sharing slugs with the probe): state kept
+	// for "big" documents only (pools, caches with a size guard) shows here
+	for i := 0; i < 12; i++ {
+		n := []int{100, 129, 130, 200, 257, 600}[i%6]
+		var big strings.Builder
+		for k := 0; k < n; k++ {
+			big.WriteString([]string{"# a\n\n", "## b c\n\n", "# a-1\n\n", "x\n===\n\n", "# \n\n"}[k%5])
+		}
+		emitDoc(emit, "# a\n\n## b c\n\n# a-1\n\nx\n===\n", []string{big.String(), "# z\n"})
+		emitDoc(emit, big.String(), []string{big.String()})
+	}
 }
 
 func randHeadingText(rng *RNG, sub []string) string {
